@@ -266,7 +266,7 @@ pub fn gen_net(rng: &mut Rng, opts: &GenOpts) -> NetCfg {
     let input = if opts.image && (opts.conv || opts.deconv || opts.maxpool) {
         ShapeCfg::Image(rng.range(1, 2), rng.range(3, 6), rng.range(3, 6))
     } else {
-        ShapeCfg::Flat(if scale() && rng.chance(0.4) { rng.pick(&[30usize, 65, 100, 100, 1024, 2100]) } else { rng.pick(&[2usize, 3, 4, 5, 9]) })
+        ShapeCfg::Flat(if scale() && rng.chance(0.4) { rng.pick(&[30usize, 65, 100, 100, 1024, 2100, 4100, 8200, 16500]) } else { rng.pick(&[2usize, 3, 4, 5, 9]) })
     };
     let mut layers: Vec<LayerCfg> = Vec::new();
     let mut cur = input;
@@ -308,7 +308,13 @@ pub fn gen_net(rng: &mut Rng, opts: &GenOpts) -> NetCfg {
                 // scale stratum: wide layers, and now and then a very wide one (inner products
                 // over more than a thousand terms); never two very wide layers in a row
                 out: if scale() && cur.count() <= 130 && rng.chance(0.6) {
-                    if rng.chance(0.2) {
+                    if cur.count() <= 9 && rng.chance(0.12) {
+                        // huge: inner products over 4096 / 8192 / 16384 and more terms (the
+                        // lengths at which a length-thresholded parallel reduction starts to
+                        // split, to depend on the pool width, to depend on steals); only
+                        // between narrow neighbours, so the layer stays cheap
+                        rng.pick(&[4096usize, 4100, 8192, 8200, 16384, 16500])
+                    } else if rng.chance(0.2) {
                         rng.pick(&[1024usize, 1100, 2048, 2100])
                     } else {
                         rng.pick(&[16usize, 25, 32, 48, 64, 65, 70, 100, 130])
